@@ -1106,6 +1106,14 @@ int safec_vsnprintf_s(out_fct_type out, const char *funcname, char *buffer,
                 if (*format) {
                     unsigned off = format - startformat;
                     char *s = (char *)malloc(off + 1);
+                    if (unlikely(!s)) {
+                        char msg[80];
+                        snprintf(msg, sizeof msg, "%s: malloc failed",
+                                 funcname);
+                        invoke_safe_str_constraint_handler(msg, buffer,
+                                                           ENOMEM);
+                        return -(ENOMEM);
+                    }
                     memcpy(s, startformat, off);
                     s[off] = '\0';
                     idx = safec_ftoa_long(out, funcname, buffer, idx, bufsize,
@@ -1139,6 +1147,14 @@ int safec_vsnprintf_s(out_fct_type out, const char *funcname, char *buffer,
                 if (*format) {
                     unsigned off = format - startformat;
                     char *s = (char *)malloc(off + 1);
+                    if (unlikely(!s)) {
+                        char msg[80];
+                        snprintf(msg, sizeof msg, "%s: malloc failed",
+                                 funcname);
+                        invoke_safe_str_constraint_handler(msg, buffer,
+                                                           ENOMEM);
+                        return -(ENOMEM);
+                    }
                     memcpy(s, startformat, off);
                     s[off] = '\0';
                     idx = safec_etoa_long(out, funcname, buffer, idx, bufsize,
@@ -1167,6 +1183,14 @@ int safec_vsnprintf_s(out_fct_type out, const char *funcname, char *buffer,
                 if (*format) {
                     unsigned off = format - startformat;
                     char *s = (char *)malloc(off + 1);
+                    if (unlikely(!s)) {
+                        char msg[80];
+                        snprintf(msg, sizeof msg, "%s: malloc failed",
+                                 funcname);
+                        invoke_safe_str_constraint_handler(msg, buffer,
+                                                           ENOMEM);
+                        return -(ENOMEM);
+                    }
                     memcpy(s, startformat, off);
                     s[off] = '\0';
                     idx = safec_atoa_long(out, funcname, buffer, idx, bufsize,
@@ -1184,6 +1208,14 @@ int safec_vsnprintf_s(out_fct_type out, const char *funcname, char *buffer,
                 if (*format) {
                     unsigned off = format - startformat;
                     char *s = (char *)malloc(off + 1);
+                    if (unlikely(!s)) {
+                        char msg[80];
+                        snprintf(msg, sizeof msg, "%s: malloc failed",
+                                 funcname);
+                        invoke_safe_str_constraint_handler(msg, buffer,
+                                                           ENOMEM);
+                        return -(ENOMEM);
+                    }
                     memcpy(s, startformat, off);
                     s[off] = '\0';
                     idx = safec_atoa(out, funcname, buffer, idx, bufsize,
